@@ -17,7 +17,7 @@ func H(e) { return "E:" + e.error() }
 func G(f) { return try(f, H) }
 func has(c, x) {
 	t := type(c)
-	if t == "list" || t == "string" {
+	if t == "list" || t == "string" || t == "byte_slice" {
 		for _, v := range c { if v == x { return true } }
 	} else {
 		for v := range c { if v == x { return true } }
